@@ -1,40 +1,40 @@
 ------------------------------ MODULE Replicas ------------------------------
 (***************************************************************************)
-(* C20, determinism: several replicas (separate processes, and a second    *)
-(* run inside one process) apply the same log of blocks and messages from  *)
-(* the same starting state.  After every step each replica reports the     *)
-(* digest of its consensus state (raw module store, tracked balances,      *)
-(* supply).  Replicas that have applied the same prefix must report the    *)
-(* same digest.                                                            *)
+(* C20, determinism: several replicas (separate processes) apply the same  *)
+(* log of blocks and messages from the same starting state.  After every   *)
+(* step each replica reports the digest of its consensus state (raw module *)
+(* store, tracked balances, supply).  Replicas that have applied the same  *)
+(* prefix must report the same digest.                                     *)
+(*                                                                         *)
+(* Line k of the trace carries, for every replica r, the k-th operation it *)
+(* applied and the digest it reported: {"k": k, "op": {r: ..}, "dg": {r: ..}}. *)
 (***************************************************************************)
 EXTENDS Integers, Sequences, FiniteSets, TLC, Json
 
-CONSTANT TraceFile      \* ndjson: {"r": replica, "k": step index, "op": event name, "dg": digest}
+CONSTANT TraceFile
 
-VARIABLES l, log
+VARIABLES l,        \* lines consumed
+          same,     \* pairs of replicas that have applied the same operations so far
+          diverged  \* pairs that applied the same prefix but reported different digests
 
 Trace == ndJsonDeserialize(TraceFile)
 
-\* log[r] = the sequence of <<op, digest>> the replica reported so far
-Init == l = 0 /\ log = <<>>
+Replica == DOMAIN Trace[1].op
+Pairs == {p \in Replica \X Replica : p[1] # p[2]}
 
-Agree(lg) ==
-    \A r1, r2 \in DOMAIN lg :
-        \A k \in 1..(IF Len(lg[r1]) <= Len(lg[r2]) THEN Len(lg[r1]) ELSE Len(lg[r2])) :
-            \* same applied prefix (same operations) => same digest
-            (\A j \in 1..k : lg[r1][j][1] = lg[r2][j][1]) => lg[r1][k][2] = lg[r2][k][2]
+Init == l = 0 /\ same = Pairs /\ diverged = {}
 
 Next ==
     /\ l < Len(Trace)
     /\ l' = l + 1
-    /\ LET x == Trace[l + 1]
-           old == IF x.r \in DOMAIN log THEN log[x.r] ELSE <<>>
-       IN /\ Len(old) + 1 = x.k
-          /\ log' = [r \in (DOMAIN log) \cup {x.r} |-> IF r = x.r THEN Append(old, <<x.op, x.dg>>) ELSE log[r]]
+    /\ LET x == Trace[l + 1] IN
+       /\ same' = {p \in same : x.op[p[1]] = x.op[p[2]]}
+       /\ diverged' = diverged \cup {p \in same' : x.dg[p[1]] # x.dg[p[2]]}
+    /\ (diverged' # diverged => PrintT(<<"DIVERGED", l + 1, diverged'>>))
     /\ (l + 1 = Len(Trace) => PrintT(<<"END", l + 1>>))
 
-Spec == Init /\ [][Next]_<<l, log>>
+Spec == Init /\ [][Next]_<<l, same, diverged>>
 
-\* checked only at the end of the log (every replica has reported everything): cheap and complete
-Deterministic == (l = Len(Trace)) => Agree(log)
+\* equal applied prefixes => equal digests
+Deterministic == diverged = {}
 =============================================================================
